@@ -50,6 +50,9 @@ pub struct Spec {
     pub tops: Vec<(String, Option<String>)>,
     pub prefix: String,
     pub inner: Vec<(String, Option<String>)>,
+    /// a second within-word expression of the same shape (same number of values): the emitters share one
+    /// table set between same-shaped expressions and print the literals in a wrapper of their own
+    pub twin: Option<(String, Vec<(String, Option<String>)>)>,
 }
 
 fn prefix_free(v: &mut Vec<(String, Option<String>)>, against: &[String]) {
@@ -77,20 +80,43 @@ pub fn gen_spec(s: &mut Src) -> Spec {
         let d = if s.chance(1, 3) { Some(gen_text(s, true)) } else { None };
         inner.push((t, d));
     }
-    prefix_free(&mut tops, &[prefix.clone(), "next".into()]);
     prefix_free(&mut inner, &[]);
     if inner.len() < 2 {
         inner.push(("v1".into(), None));
         inner.push(("w2".into(), None));
         prefix_free(&mut inner, &[]);
     }
-    Spec { tops, prefix, inner }
+    let mut twin = None;
+    if s.chance(2, 3) {
+        let p2 = format!("--j{}=", gen_text(s, false));
+        let mut inner2 = vec![];
+        for k in 0..inner.len() * 3 {
+            if inner2.len() == inner.len() {
+                break;
+            }
+            let t = if k < inner.len() * 2 { gen_text(s, false) } else { format!("t{k}") };
+            inner2.push((t, None));
+            prefix_free(&mut inner2, &[]);
+        }
+        if inner2.len() == inner.len() && !p2.starts_with(&prefix) && !prefix.starts_with(&p2) {
+            twin = Some((p2, inner2));
+        }
+    }
+    let mut against = vec![prefix.clone(), "next".to_string()];
+    if let Some((p2, _)) = &twin {
+        against.push(p2.clone());
+    }
+    prefix_free(&mut tops, &against);
+    Spec { tops, prefix, inner, twin }
 }
 
 pub fn grammar_of(sp: &Spec) -> G {
     let l = |(t, d): &(String, Option<String>)| E::Lit { text: t.clone(), descr: d.clone() };
     let mut alts: Vec<E> = sp.tops.iter().map(l).collect();
     alts.push(E::Word(vec![lit(&sp.prefix), E::Alt(sp.inner.iter().map(l).collect())]));
+    if let Some((p2, inner2)) = &sp.twin {
+        alts.push(E::Word(vec![lit(p2), E::Alt(inner2.iter().map(l).collect())]));
+    }
     let first = if alts.len() == 1 { alts.pop().unwrap() } else { E::Alt(alts) };
     G { stmts: vec![Stmt::Call { name: "cmd".into(), e: E::Seq(vec![first, lit("next")]) }] }
 }
@@ -112,7 +138,11 @@ fn check_constants(sp: &Spec, text: &str, shell: &str) -> Result<Option<usize>, 
         Ok(c) => c,
         Err(e) => return Err(Failure::new(format!("{shell} script: a string constant breaks the statement it sits in: {e}"), detail(json!({"reader": e})))),
     };
-    let want_lits: BTreeSet<String> = sp.tops.iter().map(|(t, _)| t.clone()).chain(sp.inner.iter().map(|(t, _)| t.clone())).chain([sp.prefix.clone(), "next".to_string()]).collect();
+    let mut want_lits: BTreeSet<String> = sp.tops.iter().map(|(t, _)| t.clone()).chain(sp.inner.iter().map(|(t, _)| t.clone())).chain([sp.prefix.clone(), "next".to_string()]).collect();
+    if let Some((p2, inner2)) = &sp.twin {
+        want_lits.insert(p2.clone());
+        want_lits.extend(inner2.iter().map(|(t, _)| t.clone()));
+    }
     let mut got_lits: BTreeSet<String> = BTreeSet::new();
     for (_, arr) in &consts.literal_arrays {
         for l in arr {
@@ -148,14 +178,15 @@ fn check_constants(sp: &Spec, text: &str, shell: &str) -> Result<Option<usize>, 
 }
 
 fn spec_to_json(sp: &Spec) -> serde_json::Value {
-    json!({"tops": sp.tops, "prefix": sp.prefix, "inner": sp.inner})
+    json!({"tops": sp.tops, "prefix": sp.prefix, "inner": sp.inner, "twin": sp.twin.as_ref().map(|(p, i)| json!({"prefix": p, "inner": i}))})
 }
 
 fn spec_from_json(d: &serde_json::Value) -> Option<Spec> {
     let pairs = |v: &serde_json::Value| -> Vec<(String, Option<String>)> {
         v.as_array().map(|a| a.iter().filter_map(|x| Some((x.get(0)?.as_str()?.to_string(), x.get(1).and_then(|y| y.as_str()).map(|s| s.to_string())))).collect()).unwrap_or_default()
     };
-    Some(Spec { tops: pairs(&d["tops"]), prefix: d["prefix"].as_str()?.to_string(), inner: pairs(&d["inner"]) })
+    let twin = d.get("twin").and_then(|t| if t.is_null() { None } else { Some((t["prefix"].as_str()?.to_string(), pairs(&t["inner"]))) });
+    Some(Spec { tops: pairs(&d["tops"]), prefix: d["prefix"].as_str()?.to_string(), inner: pairs(&d["inner"]), twin })
 }
 
 fn near_misses(s: &mut Src, lit: &str) -> Vec<String> {
@@ -205,7 +236,8 @@ fn judge(sp: &Spec, with_bash: bool, qbytes: &[u8]) -> Outcome {
     if c.evals == 0 {
         return Outcome::Skip("rejected".into());
     }
-    for (t, d) in sp.tops.iter().chain(sp.inner.iter()) {
+    let empty: Vec<(String, Option<String>)> = vec![];
+    for (t, d) in sp.tops.iter().chain(sp.inner.iter()).chain(sp.twin.as_ref().map(|(_, i)| i).unwrap_or(&empty).iter()) {
         if special(t) {
             c.extra_keys.push(format!("L|{t}"));
         }
@@ -229,12 +261,22 @@ fn judge(sp: &Spec, with_bash: bool, qbytes: &[u8]) -> Outcome {
         let cmds = CmdOut::new();
         let mut s = Src::new(qbytes);
         let mut qs: Vec<(Vec<String>, String, &'static str)> = vec![(vec![], String::new(), "all candidates"), (vec![], sp.prefix.clone(), "candidates inside the word")];
-        let all: Vec<String> = sp.tops.iter().map(|(t, _)| t.clone()).chain(sp.inner.iter().map(|(t, _)| format!("{}{}", sp.prefix, t))).collect();
+        let mut all: Vec<String> = sp.tops.iter().map(|(t, _)| t.clone()).chain(sp.inner.iter().map(|(t, _)| format!("{}{}", sp.prefix, t))).collect();
+        if let Some((p2, inner2)) = &sp.twin {
+            qs.push((vec![], p2.clone(), "candidates inside the twin word"));
+            all.extend(inner2.iter().map(|(t, _)| format!("{p2}{t}")));
+        }
         for w in all.iter() {
             qs.push((vec![w.clone()], String::new(), "identical word advances"));
         }
         let pick = all[s.below(all.len())].clone();
-        let base = if pick.starts_with(&sp.prefix) { (sp.prefix.clone(), pick[sp.prefix.len()..].to_string()) } else { (String::new(), pick.clone()) };
+        let base = if pick.starts_with(&sp.prefix) {
+            (sp.prefix.clone(), pick[sp.prefix.len()..].to_string())
+        } else if let Some((p2, _)) = sp.twin.as_ref().filter(|(p2, _)| pick.starts_with(p2.as_str())) {
+            (p2.clone(), pick[p2.len()..].to_string())
+        } else {
+            (String::new(), pick.clone())
+        };
         for nm in near_misses(&mut s, &base.1) {
             qs.push((vec![format!("{}{}", base.0, nm)], String::new(), "near miss must not advance"));
         }
